@@ -33,6 +33,14 @@ CHECKS = {
         note="three parameter vectors + in-place nudges; tolerance 1e-4*scale (float32) / 1e-10*scale (float64); BFS hash reads the private cache slots",
         ref="DESIGN.md 4/C10",
     ),
+    "C12": dict(
+        technique="bounded-exhaustive enumeration of all ordered batches with repetition (length <= bound) from a fixed pool of distinct rows, on every subject x configuration x pattern; oracle = batch-size-1 evaluation",
+        text="For every transform (forward and inverse), distribution and flow (log_prob, transform_to_noise) in evaluation mode, all ordered batches with repetition of "
+        "length <=3 (thorough <=4) drawn from a pool of 3 (4) distinct rows with distinct context rows are evaluated; row i of every result must equal the singleton evaluation "
+        "of that row. This covers permutation equivariance, duplicate rows, batch size one and mixed inside/outside-tail rows (the mask gather/scatter path).",
+        note="1e-9*scale agreement in float64; evaluation mode only; pool rows avoid conditioner-dependent knots",
+        ref="DESIGN.md 4/C12",
+    ),
     "C20": dict(
         technique="bounded-exhaustive enumeration of shapes/arguments (product explorer) against pure-Python reference models",
         text="Every exported helper is executed on the complete product of a small shape/argument alphabet (all shapes with <=3 dims "
